@@ -13,7 +13,7 @@ def run(ctx):
            # a channel spread over two top-level directories whose periods interleave (the reader is given them in either order)
            extra=lambda c, drf: two_directories(c, drf)
            # channels of one rate and different file cadences read by one process, coarse cadence first
-           + cc.multi_writer_histories(c, drf, c.pick(8, 150), npairs=12, nvec=6)[0])
+           + cc.multi_writer_histories(c, drf, c.pick(12, 150), npairs=12, nvec=6)[0])
 
 
 def two_directories(ctx, digital_rf):
